@@ -274,3 +274,93 @@ Theorem C20_example_needs_two_rounds :
 Proof. exact example_needs_two_rounds. Qed.
 Print Assumptions C20_example_needs_two_rounds.
 
+
+(* ---- "managers recorded at a version the converter reports as gone are dropped without
+   error and without affecting anything else" (Proofs/GoneVersions*.v): for ANY configuration
+   whose converter reports the versions of `gone` as missing and does not depend on the call
+   index, Apply and Update behave exactly as if the gone records had not been in the map --
+   same object, same records, same conflicts, same errors -- and no record of a result is at
+   a gone version.  (The index condition is needed: refuted with a converter that fails on
+   its second call.)  Example: at the reachable state of Proofs/History.v with two records
+   added at a gone version, an apply and an update give what they give without them, while
+   with the version alive the same apply is refused with a conflict on one of them. ---- *)
+From Coq Require Import List ZArith String Bool Arith Lia.
+From SMD Require Import Model.Value Model.Order Model.PathElem Model.PathSet Model.Schema Model.Walk
+  Model.Validate Model.FieldSet Model.Remove Model.Merge Model.Compare Model.Matcher Model.Reconcile
+  Model.Updater
+  Spec.PathsAsSets Proofs.OrderLaws Proofs.PathSetLaws Proofs.UpdaterLaws Proofs.UpdaterLaws2
+  Proofs.GoneVersionsBase.
+From SMD Require Import Spec.Examples Proofs.History.
+From SMD Require Import Proofs.GoneVersions.
+Theorem C20_apply_ignores_gone_records :
+  forall (c : config) (gone : string -> bool) (live cfg : tv) 
+           (ver : string) (mf : managed) (mgr : string) (force : bool),
+         reports_gone c gone ->
+         index_free c ->
+         apply_op c live cfg ver mf mgr force =
+         apply_op c live cfg ver (drop_gone gone mf) mgr force.
+Proof. exact apply_ignores_gone_records_strong. Qed.
+Print Assumptions C20_apply_ignores_gone_records.
+
+Theorem C20_update_ignores_gone_records :
+  forall (c : config) (gone : string -> bool) (live obj : tv) 
+           (ver : string) (mf : managed) (mgr : string),
+         reports_gone c gone ->
+         index_free c ->
+         update_op c live obj ver mf mgr = update_op c live obj ver (drop_gone gone mf) mgr.
+Proof. exact update_ignores_gone_records_strong. Qed.
+Print Assumptions C20_update_ignores_gone_records.
+
+Theorem C20_apply_result_has_no_gone_record :
+  forall (c : config) (gone : string -> bool) (live cfg : tv) 
+           (ver : string) (mf : managed) (mgr : string) (force : bool) 
+           (o : option tv) (mf' : managed) (m : string) (r : mrec),
+         reports_gone c gone ->
+         gone ver = false ->
+         apply_op c live cfg ver mf mgr force = UOk (o, mf') ->
+         mf_get m mf' = Some r -> gone (mr_ver r) = false.
+Proof. exact apply_result_has_no_gone_record_strong. Qed.
+Print Assumptions C20_apply_result_has_no_gone_record.
+
+Theorem C20_update_result_has_no_gone_record :
+  forall (c : config) (gone : string -> bool) (live obj : tv) 
+           (ver : string) (mf : managed) (mgr : string) (o : tv) (mf' : managed) 
+           (m : string) (r : mrec),
+         reports_gone c gone ->
+         gone ver = false ->
+         update_op c live obj ver mf mgr = UOk (o, mf') ->
+         mf_get m mf' = Some r -> gone (mr_ver r) = false.
+Proof. exact update_result_has_no_gone_record_strong. Qed.
+Print Assumptions C20_update_result_has_no_gone_record.
+
+Theorem C20_gone_records_needs_an_index_free_converter :
+  reports_gone gx_config2 gx_gone /\
+         ~ index_free gx_config2 /\
+         mf_ok gx_mf2 /\
+         gx_gone "v1" = false /\
+         apply_op gx_config2 gx_live ("v1", VMap (("aa", VInt 2) :: nil)) "v1" gx_mf2 "c" false =
+         UErr EOther /\
+         (exists r : option tv * managed,
+            apply_op gx_config2 gx_live ("v1", VMap (("aa", VInt 2) :: nil)) "v1"
+              (drop_gone gx_gone gx_mf2) "c" false = UOk r) /\
+         update_op gx_config2 gx_live gx_obj "v1" gx_mf2 "c" = UErr EOther /\
+         (exists r : tv * managed,
+            update_op gx_config2 gx_live gx_obj "v1" (drop_gone gx_gone gx_mf2) "c" = UOk r).
+Proof. exact index_free_needed. Qed.
+Print Assumptions C20_gone_records_needs_an_index_free_converter.
+
+Theorem C20_gone_example_apply :
+  apply_op gx_config gx_live gx_cfg "v1" gx_mf "a" false =
+         apply_op gx_config gx_live gx_cfg "v1" hx_mf "a" false /\
+         (forall (o : option tv) (mf' : managed) (m : string) (r : mrec),
+          apply_op gx_config gx_live gx_cfg "v1" gx_mf "a" false = UOk (o, mf') ->
+          mf_get m mf' = Some r -> gx_gone (mr_ver r) = false).
+Proof. exact gx_apply_by_theorem. Qed.
+Print Assumptions C20_gone_example_apply.
+
+Theorem C20_gone_records_are_not_inert_by_accident :
+  apply_op ex_config gx_live gx_cfg "v1" gx_mf "a" false =
+         UErr (EConflict (("e", PEField "aa" :: nil) :: nil)).
+Proof. exact gx_conflict_if_not_gone. Qed.
+Print Assumptions C20_gone_records_are_not_inert_by_accident.
+
